@@ -158,6 +158,56 @@ def first_diff(a, b):
     return 'line count %d vs %d' % (len(la), len(lb))
 
 
+HOSTS = {
+    'region-in-one-comment': ('C', b"""int a;
+/* first line
+ * *INDENT-OFF*
+ *   keep    this
+ *      table  as is
+ * *INDENT-ON*
+ * last line
+ */
+int b;
+/* *INDENT-OFF* only
+   to the end of this comment */
+int   c  ;
+/* *INDENT-ON* */
+int d;
+"""),
+    'region-between-comments': ('C', b"""int a;
+// *INDENT-OFF*
+   int   b  ;
+
+	char *s = "x";
+/* *INDENT-ON* */
+int e;
+#pragma asm
+  mov   ax , 1
+#pragma endasm
+int f;
+"""),
+    'breaks-inside-tokens': ('CPP', b"""#define SWAP(a, b) \\
+   do { t = a; \\
+        a = b; b = t; } while (0)
+/* block
+   comment
+ */
+const char *r = R"x(one
+two
+   three)x";
+int g(int a) // trailing
+{
+   return a +
+          1;
+}
+"""),
+}
+
+
+def host_or_corpus(rel):
+    return HOSTS[rel[5:]][1] if rel.startswith('host:') else corpus.read(rel)
+
+
 def check(ctx):
     build.binary('plain')
     quick = ctx.tier == 'quick'
@@ -169,6 +219,15 @@ def check(ctx):
         cfgs = [sr.choice(sorted(BASE_CONFIGS))] if quick else sorted(BASE_CONFIGS)
         for c in cfgs:
             tasks.append((rel, lang, c, i, None))
+    # in every run: the hand-written hosts and the corpus files with a disabled region, under every base config
+    fixed = [(rel, lang) for rel, lang in files if b'INDENT-OFF' in corpus.read(rel) and (rel, lang) not in sel]
+    for i, (rel, lang) in enumerate(fixed):
+        for c in sorted(BASE_CONFIGS):
+            tasks.append((rel, lang, c, 100000 + i, None))
+    for i, (h, (hl, data)) in enumerate(sorted(HOSTS.items())):
+        for c in sorted(BASE_CONFIGS):
+            tasks.append(('host:' + h, hl, c, 200000 + i, data))
+    ctx.count('fixed_family_inputs', len(fixed) + len(HOSTS))
     ctx.rule = ('per (corpus file, base config): F under lf/crlf/cr on the LF form (purity, substitution), F on the CRLF/CR/mixed conversions '
                 '(commutation), newlines=auto on four conversions (majority); ~17 runs per case; non-trivial = distinct case accepted and changed')
     for r in pmap(_case, tasks):
@@ -183,7 +242,7 @@ def check(ctx):
             ctx.nt(r['rel'], r['cfg'])
         for kind, desc in r['probs']:
             ctx.violation(kind if kind.startswith(('lone-cr|', 'lone-cr-rejected|')) else '%s|%s|%s' % (kind, r['cfg'], r['rel']), 'tests/input/%s config %s: %s' % (r['rel'], r['cfg'], desc),
-                          files={'input': corpus.read(r['rel']), 'config.cfg': BASE_CONFIGS[r['cfg']]})
+                          files={'input': host_or_corpus(r['rel']), 'config.cfg': BASE_CONFIGS[r['cfg']]})
     ctx.sample(dict(file=tasks[0][0], config=tasks[0][2], runs=['F_lf', 'F_crlf', 'F_cr', 'F_lf(crlf x)', 'F_lf(cr x)', 'F_lf(mix x)', 'F_auto(..)']))
     ctx.assumptions += ['auto is judged only when the majority survives subtracting the line breaks the tokenizer does not count (inside comments, literals, continuations; measured from the T dump)',
                         'UTF-16 inputs are left to C09']
